@@ -40,6 +40,9 @@ Fact fact_mecab_break_cmp : OF.mecab_break_cmp = ">"%string.
 Proof. vm_compute. reflexivity. Qed.
 Fact fact_mecab_len_inclusive : OF.mecab_len_inclusive = true.
 Proof. vm_compute. reflexivity. Qed.
+(* since the fix of the clamped-distance loop the length loop also leaves when char_distance stops growing *)
+Fact fact_mecab_break_on_clamp : OF.mecab_break_on_clamp = true.
+Proof. vm_compute. reflexivity. Qed.
 Fact fact_mecab_group_dec : OF.mecab_group_dec = 1%nat.
 Proof. vm_compute. reflexivity. Qed.
 Fact fact_has_word_maybe_cmp : OF.has_word_maybe_cmp = ">="%string.
@@ -114,11 +117,49 @@ Theorem C13_mecab_candidates_spec :
         /\ find_oovs m (ci_type ci) = Some oovs /\ In o oovs
         /\ nd = oov_node off (off + l)%nat o
         /\ ((ci_group ci = true /\ l = char_len)
-            \/ (1 <= l <= ci_length ci /\ l <= (if ci_group ci then pred char_len else char_len))%nat).
+            \/ ((1 <= l)%nat /\ N.of_nat l <= ci_length ci /\ (l <= (if ci_group ci then pred char_len else char_len))%nat)).
 Proof.
-  exact (mecab_candidates_explicit fact_mecab_break_cmp fact_mecab_len_inclusive fact_mecab_group_dec fact_continuity_forward).
+  exact (mecab_candidates_explicit fact_mecab_break_cmp fact_mecab_len_inclusive fact_mecab_group_dec fact_mecab_break_on_clamp
+                                  fact_continuity_forward).
 Qed.
 Print Assumptions C13_mecab_candidates_spec.
+
+(* the produced list is even the prescribed list itself (same order): nothing is produced twice *)
+Theorem C13_mecab_candidates_eq_prescribed :
+  forall m cs off other ns,
+    mecab_provide m cs (continuity cs) off other = ROk ns -> ns = prescribed m cs off other.
+Proof.
+  exact (fun m cs off other ns =>
+           mecab_provide_eq_prescribed fact_mecab_break_cmp fact_mecab_len_inclusive fact_mecab_group_dec
+                                       fact_mecab_break_on_clamp m cs off other ns
+                                       (continuity_eq_spec_generic fact_continuity_forward cs)).
+Qed.
+Print Assumptions C13_mecab_candidates_eq_prescribed.
+
+(* for distinct unk.def templates the candidate list of one class has no duplicates, whatever the `length` of the class
+   (the pinned loop repeated the full-run candidate for every length beyond the end of the text) *)
+Theorem C13_mecab_no_duplicates :
+  forall m len off char_len other ctype,
+    (1 <= char_len)%nat -> (off + char_len <= len)%nat ->
+    (forall t oovs, In (t, oovs) (m_oovs m) -> NoDup oovs) ->
+    NoDup (mecab_class m len off char_len other ctype).
+Proof.
+  exact (mecab_no_duplicates_generic fact_mecab_break_cmp fact_mecab_len_inclusive fact_mecab_group_dec fact_mecab_break_on_clamp).
+Qed.
+Print Assumptions C13_mecab_no_duplicates.
+
+(* and it is bounded by the run length times the number of templates, independently of `length` (a u32, up to 4294967295):
+   at most char_len x templates candidates per class -- in particular at most (run length + 1) x templates *)
+Theorem C13_mecab_candidates_bounded :
+  forall m len off char_len other ctype bound,
+    (1 <= char_len)%nat -> (off + char_len <= len)%nat ->
+    (forall t oovs, In (t, oovs) (m_oovs m) -> (List.length oovs <= bound)%nat) ->
+    (List.length (mecab_class m len off char_len other ctype) <= char_len * bound)%nat.
+Proof.
+  exact (mecab_candidates_bounded_generic fact_mecab_break_cmp fact_mecab_len_inclusive fact_mecab_group_dec
+                                          fact_mecab_break_on_clamp).
+Qed.
+Print Assumptions C13_mecab_candidates_bounded.
 
 (* "each class of the character": a single-bit class is visited iff the character has it *)
 Theorem C13_classes_iterated :
